@@ -36,6 +36,20 @@ fn free_addr() -> SocketAddr {
     std::net::TcpListener::bind("127.0.0.1:0").unwrap().local_addr().unwrap()
 }
 
+/// Several harness processes pick ports at the same time: a port seen free may be taken a moment later.
+async fn listen_free() -> (SocketAddr, Server) {
+    let mut last = None;
+    for _ in 0..200 {
+        let addr = free_addr();
+        match Server::listen(addr).await {
+            Ok(s) => return (addr, s),
+            Err(e) => last = Some(e),
+        }
+    }
+    eprintln!("tool error: no port to listen on: {last:?}");
+    std::process::exit(2);
+}
+
 struct NodeRig {
     id: u8,
     addr: SocketAddr,
@@ -67,8 +81,7 @@ impl Rig {
             let store = Arc::new(MemStore::default());
             let group = KeyspaceGroup::new(store.clone(), clock.clone()).await;
             let network = RpcNetwork::default();
-            let addr = free_addr();
-            let server = Server::listen(addr).await.expect("listen");
+            let (addr, server) = listen_free().await;
             server.add_service(ConsistencyService::new(group.clone(), network.clone()));
             server.add_service(ReplicationService::new(group.clone()));
             nodes.insert(*id, NodeRig { id: *id as u8, addr, store, group: parking_lot::Mutex::new(group), clock, network, server });
@@ -124,6 +137,8 @@ struct Exchange {
 }
 
 struct Outcome {
+    rounds: u64,
+    fixpoint: bool,
     why: Vec<(String, String)>, // (property, text)
     drift: Vec<String>,
     reads: Value,
@@ -134,9 +149,10 @@ struct Outcome {
 /// (both halves spawned concurrently, progress watcher), or a whole `repair_members` round on a young rig - at the
 /// point where the model's exchange reads the peer's state; the model's finer steps of that exchange are skipped.
 /// This is the behaviour in which the exchange's steps are contiguous, so the same final expectation applies.
-async fn run_behaviour(rig: &Rig, b: &Value, idx: u64, f: u64, coarse: bool) -> Outcome {
-    let mut out = Outcome { why: vec![], drift: vec![], reads: Value::Null, tool_error: None };
+async fn run_behaviour(rig: &Rig, b: &Value, idx: u64, f: u64, coarse: bool, tracked: bool) -> Outcome {
+    let mut out = Outcome { rounds: 0, fixpoint: false, why: vec![], drift: vec![], reads: Value::Null, tool_error: None };
     let mut coarse_done: std::collections::BTreeSet<(u64, u64)> = Default::default();
+    let mut trackers: BTreeMap<u64, repair::Tracker> = rig.nodes.keys().map(|n| (*n, repair::Tracker::default())).collect();
     let ks = format!("b{}", idx);
     let tm = TimeMap { base_s: 100_000 + idx * 40_000, unit_s: 3600 / f };
     let mut exch: BTreeMap<(u64, u64), Exchange> = BTreeMap::new();
@@ -233,6 +249,18 @@ async fn run_behaviour(rig: &Rig, b: &Value, idx: u64, f: u64, coarse: bool) -> 
                     return out;
                 }
             },
+            // tracked mode: where the model starts an exchange of n with p, the real poller of n runs one round against p
+            // with n's keyspace tracker (it skips the peer if the tracker says nothing changed); the model's finer
+            // steps are left out, and the rounds up to the poller's fixpoint follow after the last step
+            "getstate" if tracked => {
+                let (n, p) = (s["n"].as_u64().unwrap(), s["p"].as_u64().unwrap());
+                let me = &rig.nodes[&n];
+                let peer = &rig.nodes[&p];
+                let mut members = BTreeMap::new();
+                members.insert(peer.id, peer.addr);
+                repair::repair_round_tracked(&me.grp(), &me.network, &members, trackers.get_mut(&n).unwrap()).await;
+            },
+            "diff" | "removals" | "fetch" | "modified" if tracked => {},
             "getstate" if coarse => {
                 let (n, p) = (s["n"].as_u64().unwrap(), s["p"].as_u64().unwrap());
                 let me = &rig.nodes[&n];
@@ -348,12 +376,33 @@ async fn run_behaviour(rig: &Rig, b: &Value, idx: u64, f: u64, coarse: bool) -> 
                 n.server.add_service(ConsistencyService::new(group.clone(), n.network.clone()));
                 n.server.add_service(ReplicationService::new(group.clone()));
                 *n.group.lock() = group;
-                // the node's own repair exchanges died with it
+                // the node's own repair exchanges died with it, and so did its poller's tracker
                 let nid = s["n"].as_u64().unwrap();
+                trackers.insert(nid, repair::Tracker::default());
                 exch.retain(|k, _| k.0 != nid);
             },
             other => panic!("step {other}"),
         }
+    }
+
+    if tracked {
+        // Everything has been issued and delivered (or lost). Now every node runs the body of the real poller loop
+        // (repair_members with its own keyspace tracker) against all other nodes, round after round, until a whole
+        // round asks no keyspace actor for a difference any more - the poller's fixpoint - or six rounds have passed.
+        let mut rounds = 0u64;
+        let mut fixpoint = false;
+        while rounds < 6 && !fixpoint {
+            rounds += 1;
+            verif::start_recording();
+            for (n, me) in &rig.nodes {
+                let members: BTreeMap<u8, SocketAddr> = rig.nodes.iter().filter(|(p, _)| *p != n).map(|(_, p)| (p.id, p.addr)).collect();
+                repair::repair_round_tracked(&me.grp(), &me.network, &members, trackers.get_mut(n).unwrap()).await;
+            }
+            let diffs = verif::take_events().iter().filter(|e| e.contains("\"ev\":\"ks_diff\"")).count();
+            fixpoint = diffs == 0;
+        }
+        out.rounds = rounds;
+        out.fixpoint = fixpoint;
     }
 
     // final observation
@@ -421,6 +470,11 @@ pub async fn replay() {
     let passthrough = vcommon::arg("--passthrough");
     let max: usize = arg_or("--max", "1000000").parse().unwrap();
     let coarse = arg_or("--mode", "fine") == "coarse";
+    let tracked = arg_or("--mode", "fine") == "tracked";
+    // the progress watcher of begin_keyspace_sync looks every 250 ms; here it looks every `--sync-tick-ms`
+    let tick_ms: u64 = arg_or("--sync-tick-ms", "2").parse().unwrap();
+    datacake_eventual_consistency::verif::set_sync_tick(Duration::from_millis(tick_ms));
+    let (mut rounds_total, mut fixpoints) = (0u64, 0u64);
     let slice: Vec<usize> = arg_or("--slice", "0/1").split('/').map(|x| x.parse().unwrap()).collect();
     let ids: Vec<u64> = arg_or("--nodes", "1,2").split(',').map(|x| x.parse().unwrap()).collect();
     let mut behaviours: Vec<Value> = vec![];
@@ -441,7 +495,7 @@ pub async fn replay() {
     let behaviours: Vec<Value> = behaviours.into_iter().enumerate().filter(|(i, _)| i % slice[1] == slice[0]).map(|(_, b)| b).collect();
     for (idx, b) in behaviours.iter().enumerate() {
         let has_restart = b["hist"].as_array().unwrap().iter().any(|s| s["a"] == "restart");
-        if in_rig >= 20_000 || has_restart || last_had_restart || (coarse && in_rig >= 30) {
+        if in_rig >= 20_000 || has_restart || last_had_restart || (coarse && in_rig >= 30) || tracked {
             rig = Rig::new(&ids).await;
             in_rig = 0;
         }
@@ -452,7 +506,9 @@ pub async fn replay() {
             steps_total += 1;
             *kinds.entry(s["a"].as_str().unwrap().to_string()).or_default() += 1;
         }
-        let o = run_behaviour(&rig, b, in_rig, f, coarse).await;
+        let o = run_behaviour(&rig, b, in_rig, f, coarse, tracked).await;
+        rounds_total += o.rounds;
+        fixpoints += o.fixpoint as u64;
         if let Some(e) = o.tool_error {
             eprintln!("tool error in behaviour {idx}: {e}");
             std::process::exit(2);
@@ -477,5 +533,7 @@ pub async fn replay() {
     sum.set("behaviours", behaviours.len() as u64);
     sum.set("steps", steps_total);
     sum.set("step_kinds", json!(kinds));
+    sum.set("poller_rounds", rounds_total);
+    sum.set("poller_fixpoints", fixpoints);
     sum.write(&out_path);
 }
